@@ -2358,4 +2358,8 @@ M("t17-external-type-conflict-ignored", "C17", "fire T17", "src/check.rs",
                                 _ => {""",
   """                                _ => {""", "a second declared type for the same external value silently replaces the first")
 REVERT("revert-assign-reads-late", "C14", "fire E15", "ddf9a33", "pre-fix tree: the assigned variable is read before index / value are lowered")
+REVERT("revert-usize-literal-bound", "C03", "fire A10", "4fef7fd", "pre-fix tree: usize literals bounded by the host's usize::MAX")
+M("a10-u16-literal-bound-too-wide", "C03", "fire A10", "src/scan.rs",
+  """                                "u16" if n <= u16::MAX as u64 => {""",
+  """                                "u16" if n <= u32::MAX as u64 => {""", "u16 literals up to u32::MAX pass the scanner")
 
